@@ -347,6 +347,7 @@ func c09Scenarios() []schedScenario {
 func (c09) Plan(tier string) []fw.Unit {
 	us := planEnum("C09", tier, len(c09Configs(tier)), 1)
 	us = append(us, fw.Unit{Check: "C09", Kind: "key-pairs", Tier: tier, Spec: fw.Spec(enumSpec{})})
+	us = append(us, fw.Unit{Check: "C09", Kind: "count-spelling", Tier: tier, Spec: fw.Spec(enumSpec{})})
 	bound := 1
 	if tier == "thorough" {
 		bound = 2
@@ -367,6 +368,9 @@ func (c09) Run(u fw.Unit) fw.Result {
 	}
 	if u.Kind == "key-pairs" {
 		return c09KeyPairs()
+	}
+	if u.Kind == "count-spelling" {
+		return c09LeadingZero()
 	}
 	sp := parseEnum(u)
 	cfg := c09Configs(u.Tier)[sp.Cfg]
